@@ -38,6 +38,7 @@ func init() {
 	ops["det"] = opDet
 	ops["spec"] = opSpec
 	ops["wfail"] = opWFail
+	ops["respbatch"] = opRespBatch
 }
 
 func execOp(line string) (res string) {
